@@ -90,6 +90,23 @@ fn judge(ctx: &mut Ctx, api: &str, input: &[u8], e: &sonic_rs::Error, lookup: bo
     if d.is_empty() || g.is_empty() || std::str::from_utf8(d.as_bytes()).is_err() {
         ctx.fail(&format!("message-undisplayable:{}", api), "empty or invalid message".into());
     }
+    // category predicates agree with classify()
+    {
+        use std::error::Error as _;
+        let preds = [e.is_syntax(), e.is_eof(), e.is_unmatched_type(), e.is_io(), e.is_not_found()];
+        let _ = e.source();
+        let want = match cat {
+            Category::Syntax => 0,
+            Category::Eof => 1,
+            Category::TypeUnmatched => 2,
+            Category::Io => 3,
+            Category::NotFound => 4,
+            _ => 5,
+        };
+        if want > 4 || !preds[want] || preds.iter().enumerate().any(|(i, p)| *p && i != want) {
+            ctx.fail(&format!("category-predicates-disagree:{}", api), format!("{}: classify() = {:?} but [syntax, eof, unmatched, io, not_found] = {:?}", api, cat, preds));
+        }
+    }
     if e.is_not_found() && !lookup {
         ctx.fail(&format!("not-found-outside-lookup:{}", api), format!("{}: NotFound category from a non-lookup entry point: {}", api, crate::mon::common::err_brief(e)));
     }
@@ -102,9 +119,24 @@ macro_rules! parse_ep {
     ($ctx:expr, $name:expr, $input:expr, $e:expr) => {
         match $e {
             Ok(_) => $ctx.class("outcome:ok"),
-            Err(e) => judge($ctx, $name, $input, &e, false),
+            Err(e) => {
+                judge($ctx, $name, $input, &e, false);
+                io_conversion($ctx, $name, e);
+            }
         }
     };
+}
+
+/// `io::Error::from(sonic_rs::Error)`: EOF errors become UnexpectedEof, the rest InvalidData; the
+/// message survives
+fn io_conversion(ctx: &mut Ctx, api: &str, e: sonic_rs::Error) {
+    let cat = e.classify();
+    let msg = e.to_string();
+    let io: std::io::Error = e.into();
+    let want_kind = if cat == Category::Eof { std::io::ErrorKind::UnexpectedEof } else { std::io::ErrorKind::InvalidData };
+    if io.kind() != want_kind || io.to_string() != msg {
+        ctx.fail(&format!("io-conversion:{}", api), format!("{}: io::Error::from gives kind {:?} / {:?} for a {:?} error {:?}", api, io.kind(), crate::core::truncate(&io.to_string(), 80), cat, crate::core::truncate(&msg, 80)));
+    }
 }
 
 pub fn check_input(ctx: &mut Ctx, b: &[u8]) {
